@@ -123,16 +123,21 @@ pub fn toggle_of(comment: &str) -> Option<bool> {
     } else {
         return None;
     };
-    let mut words = body.split(|c: char| c.is_whitespace()).filter(|w| !w.is_empty());
-    let w1 = words.next()?;
-    if !w1.eq_ignore_ascii_case("pasfmt") {
+    // blanks, the word `pasfmt`, at least one blank, then the exact word on/off (a word is a
+    // maximal run of letters and digits), case-insensitively
+    let body = body.trim_start_matches(|c: char| c.is_ascii_whitespace());
+    if body.len() < 6 || !body.is_char_boundary(6) || !body[..6].eq_ignore_ascii_case("pasfmt") {
         return None;
     }
-    let w2 = words.next()?;
-    // `off:` style suffixes are not accepted here; callers that need leniency handle it
-    if w2.eq_ignore_ascii_case("on") {
+    let rest = &body[6..];
+    let after_ws = rest.trim_start_matches(|c: char| c.is_ascii_whitespace());
+    if after_ws.len() == rest.len() {
+        return None;
+    }
+    let word: String = after_ws.chars().take_while(|c| c.is_ascii_alphanumeric()).collect();
+    if word.eq_ignore_ascii_case("on") {
         Some(true)
-    } else if w2.eq_ignore_ascii_case("off") {
+    } else if word.eq_ignore_ascii_case("off") {
         Some(false)
     } else {
         None
